@@ -1,4 +1,6 @@
-"""Write /verif/MANIFEST.json from the table below (single source of truth for what is claimed)."""
+"""Write /verif/MANIFEST.json from harness/meta/Cxx.json (one file per claimed property:
+technique, level_text, level_note, design_ref) and harness/meta/not_applicable.json."""
+import glob
 import json
 import os
 
@@ -7,44 +9,21 @@ TB = ("Lean 4.33 kernel; axioms ⊆ {propext, Classical.choice, Quot.sound} (aud
       "no sorry/native_decide/bv_decide); the theorem statements in lean/Props/%s.lean; "
       "the correspondence harness harness/props/%s.py that ties the Lean model to /repo's working tree")
 
-# id -> (technique, level text, extra trusted base / what is modelled rather than verified, design ref)
-CLAIMED = {
- 'C17': ("Lean 4 proof (induction over the point/criteria lists; Int arithmetic of CPython slice "
-         "normalisation) on a hand-written executable model + exact differential correspondence "
-         "against gepard.select/__getitem__/__add__/DataPoint.copy on all bundled datasets",
-         "select = filter(all/any) (hence sublist, once, in order, empty allowed), slice indices valid and "
-         "complete for every (start,stop,step), plain slice = take/drop, concat = append with agreed "
-         "attributes, copy does not alias: proved for all inputs in Lean; the model is tied to the code by "
-         "running both on the same generated operations and comparing exactly.",
-         "criteria are modelled as abstract decidable predicates (eval() of the criterion string is "
-         "trusted to compute the comparison); attribute values compared by digest", "§4 C17"),
- 'C10': ("Lean 4 proof over ℝ (list induction, List.Perm.sum_eq) on a scalar-template model instantiated at "
-         "Float and ℝ + differential correspondence of the Float instance against Theory.chisq / pull",
-         "chi-square = sum of squared pulls, non-negative, additive over ++, invariant under any permutation and "
-         "re-slicing, asymmetric-error branch by the sign of the residual, pull = signed contribution: proved for "
-         "all lists of measurements over ℝ; the accumulation code is tied to the model by running both on random "
-         "sub-multisets/permutations of bundled points (shipped and ad-hoc theories) and comparing to 1e-11.",
-         "the theory's predict() is a parameter of the model; floating-point summation is compared, not proved", "§4 C10"),
- 'C13': ("Lean 4 proof over ℝ (field_simp/ring, Real.sqrt, exhaustive case split over frame × unit × harmonic "
-         "tables) on a scalar-template model + differential correspondence of its Float instance against "
-         "DataPoint completion and to/from/orig_conventions",
-         "completion from each pair satisfies xB=Q2/(W²+Q2−M²) and reproduces a consistent triple, xi and tm, "
-         "over-determined input rejected, under-determined untouched; from_conventions∘to_conventions = id for "
-         "every frame/unit/harmonic and orig_conventions = the value map of from_conventions: proved over ℝ for "
-         "all inputs; tied to the code on the full finite grid × random reals and on bundled points (ulp-level).",
-         "rounding of the degree/radian and pb/nb conversions is compared within a few ulp, not proved", "§4 C13"),
-}
-
-NOT_YET = {}
-
 
 def main():
     props = [json.loads(l) for l in open(os.path.join(VERIF, 'properties.jsonl'))]
+    claimed = {}
+    for p in glob.glob(os.path.join(VERIF, 'harness', 'meta', 'C*.json')):
+        i = os.path.basename(p)[:-5]
+        if os.path.exists(os.path.join(VERIF, 'harness', 'props', i + '.py')):
+            claimed[i] = json.load(open(p))
+    na_path = os.path.join(VERIF, 'harness', 'meta', 'not_applicable.json')
+    na_reasons = json.load(open(na_path)) if os.path.exists(na_path) else {}
     checks, na = [], []
     for p in props:
         i = p['id']
-        if i in CLAIMED:
-            tech, text, note, ref = CLAIMED[i]
+        if i in claimed:
+            c = claimed[i]
             checks.append({
                 'property_id': i,
                 'quick_cmd': './check %s --tier quick' % i,
@@ -52,12 +31,13 @@ def main():
                 'evidence_file': 'evidence/%s.json' % i,
                 'replay_cmd_template': './check %s --replay {path}' % i,
                 'engine': 'lean4+correspondence',
-                'level_claimed': {'category': 'proof', 'text': text, 'design_ref': 'DESIGN.md ' + ref},
-                'level_note': (TB % (i, i)) + '; ' + note,
-                'technique': tech,
+                'level_claimed': {'category': 'proof', 'text': c['level_text'],
+                                  'design_ref': 'DESIGN.md ' + c['design_ref']},
+                'level_note': (TB % (i, i)) + '; ' + c['level_note'],
+                'technique': c['technique'],
             })
         else:
-            na.append({'property_id': i, 'reason': NOT_YET.get(
+            na.append({'property_id': i, 'reason': na_reasons.get(
                 i, 'check not built yet in this session (planned per DESIGN.md §4); no claim is made')})
     m = {
         'version': 1,
@@ -68,10 +48,11 @@ def main():
                   '--timeout=900 --continue-on-collection-errors',
                   'source_commits': [], 'add_only': True},
         'engines': [{'name': 'lean4+correspondence', 'path': 'lean/ harness/ tools/',
-                     'serves_properties': sorted(CLAIMED),
+                     'serves_properties': sorted(claimed),
                      'kind_free_text': 'Lean 4 theorems about executable models (lean/Model hand-written, '
-                     'lean/Gen regenerated from /repo by tools/py2lean.py on every run) + differential '
-                     'correspondence of the compiled model driver against the running Python'}],
+                     'lean/Scalar templates instantiated at Float and ℝ, lean/Gen regenerated from /repo by '
+                     'tools/py2lean.py on every run) + differential correspondence of the compiled model '
+                     'driver against the running Python'}],
         'checks': checks,
         'not_applicable': na,
         'notes': 'See DESIGN.md. Every check: ./check <id> [--tier quick|thorough]; exit 0 ok, 1 violation, '
